@@ -126,9 +126,19 @@ EditsOf(sc) ==
     \cup
     {<<[e |-> "add_route", at |-> "nsa"], sc>>}
 
+\* every reference of the edited schema still has a target (a type added after a rename must not use the old name)
+RECURSIVE RefsOfType(_)
+RefsOfType(t) == CASE t.k = "ref" -> {t.n} [] t.k \in {"list", "nullable"} -> RefsOfType(t.e) [] t.k = "map" -> RefsOfType(t.v)
+                   [] OTHER -> {}
+RefsOfDef(d) == CASE d.k = "alias"  -> RefsOfType(d.t)
+                  [] d.k = "struct" -> (IF d.parent = "" THEN {} ELSE {d.parent}) \cup UNION {RefsOfType(d.fields[i].t) : i \in DOMAIN d.fields}
+                                       \cup {d.subs[i].sub : i \in DOMAIN d.subs}
+                  [] d.k = "union"  -> (IF d.parent = "" THEN {} ELSE {d.parent}) \cup UNION {RefsOfType(d.tags[i].t) : i \in DOMAIN d.tags}
+RefsClosed(sc) == \A n \in DOMAIN sc : RefsOfDef(sc[n]) \subseteq DOMAIN sc
 \* `void_tag_gets_type` only applies where the tag exists and is Void
 EditOk(sc, ed) ==
-    ed[1].e = "void_tag_gets_type" =>
+    /\ RefsClosed(ed[2])
+    /\ ed[1].e = "void_tag_gets_type" =>
         \* the value generator needs acyclic types: K is used inside P (Q.q1)
         /\ (ed[1].at = "K" => ed[1].t \notin {TRef("K"), TRef("P")})
         /\ \E i \in DOMAIN sc[ed[1].at].tags :
